@@ -98,7 +98,8 @@ Fixpoint errors_is (target : N) (e : err) : bool :=
 Record env := {
   e_kind : kind; e_glob : option resolution; e_route : route_res;
   e_method : bytes; e_host : bytes; e_path : bytes;
-  e_remote : bytes     (* c.RemoteIP().String() *)
+  e_remote : bytes;    (* c.RemoteIP().String() *)
+  e_min : option slog_level   (* minimum level of the slog.Handler given to LoggerWithHandler *)
 }.
 
 (* logger.go:24-64, executed after next(c) returned *)
@@ -114,12 +115,16 @@ Definition assemble (e : env) (w : wstate) : logrec :=
   {| r_level := lvl; r_msg := ipStr;
      r_attrs := match location with [] => base | _ => base ++ [(S2B "location", VStr location)] end |}.
 
+(* log.LogAttrs(ctx, lvl, ...): slog.Logger asks the handler's Enabled(lvl) first *)
+Definition emit (e : env) (w : wstate) : list event :=
+  if enabled_at (e_min e) (r_level (assemble e w)) then [EvLog (assemble e w)] else [].
+
 (* LoggerWithHandler's closure: next(c) runs first; a panic in next unwinds through the
    closure (no defer, no recover), so nothing after next(c) runs *)
 Definition logger (e : env) (next : handler) : handler :=
   fun w tr =>
     match next w tr with
-    | (Returned, w', tr') => (Returned, w', tr' ++ [EvLog (assemble e w')])
+    | (Returned, w', tr') => (Returned, w', tr' ++ emit e w')
     | (Panicked id, w', tr') => (Panicked id, w', tr')
     end.
 
